@@ -46,6 +46,22 @@ def one(rep, prog, cfg):
         rep.fail("C04.anchor", cfg, "client/connection.rs", "connection loop not found")
         return
     an = res["an"]
+    # the function that turns a frame into a subsystem value: found by its result type, not by its name
+    global FROM_FRAME
+    convs = set()
+    for f in res["fns"]:
+        co = an.coroutine_of(f)
+        if co is None:
+            continue
+        for bb, t in co.calls():
+            fc = callee(t)
+            tid = (fc.get("inst") or fc["def"]) if fc else None
+            if tid in prog.bodies and prog.bodies[tid].crate == "mpd_client" and "client::Subsystem" in prog.bodies[tid].local_ty(0):
+                convs.add(norm(prog.bodies[tid].name))
+    if len(convs) != 1:
+        rep.fail("C04.anchor", cfg + "/conversion function", "client/", "expected one function producing a Subsystem from a reply frame in the loop, found %s" % sorted(convs))
+        return
+    FROM_FRAME = next(iter(convs))
     # ---- conversion sites: event sends whose value is a SubsystemChange ------------------------------
     sites = []
     for f in res["fns"]:
